@@ -545,8 +545,14 @@ def w_op_recording(props=None, case=None):
     repo, spec, ex, st, selfv, fr, node, info = w_op_state('idle_enabled', case=case, obl=obl, props=props)
     table_lookup(spec)
     st.assume(st.g['ddom'][Val.addr(st.rd(selfv, '_invoke_counter'))] == z3.K(Val, False))      # Idle: counter empty
+    spec.inject_decision_failure = True
     paths = norm(ex.block(node.body, st)); U = 'W_op.recording'
     for s, oc in paths:
+        if s.g.get('decision_failed'):
+            # the sampling decision failed inside the framework (fault injected by its contract): whatever else happens, the recorder is idle
+            # afterwards - otherwise every later operation fails with "another recording is already running"
+            obl.append(Obl('C09/%s/idle_after_a_failure_inside_the_sampling_decision' % U, ('C09',), s, idle(s, selfv), oc))
+            continue
         r = s.g.get('created')
         b = body_calls(s)
         if r is None and len(b) == 1 and not [t for t in s.trace if t['kind'] != 'UserBody']:
@@ -606,10 +612,6 @@ def w_op_recording(props=None, case=None):
         draws = s.g.get('draws', [])
         obl.append(Obl('C17/%s/at_most_one_draw_per_decision' % U, 'C17', s, z3.BoolVal(len(draws) <= 1), oc))
         dec = s.g.get('decision')
-        if s.g.get('idle_at_decision') is not None:
-            # the sampling decision and the finalisation that follows are framework steps that can fail (a rate that is not a number, a cassette
-            # error): the run's state must be gone BEFORE them, or such a failure leaves the recorder recording for ever
-            obl.append(Obl('C09/%s/recorder_already_idle_when_the_sampling_decision_is_taken' % U, ('C09', 'C05'), s, s.g['idle_at_decision'], oc))
         if dec is not None:
             force, rate = dec; d = draws[0] if draws else None
             obl.append(Obl('C17/%s/no_draw_when_forced_or_full_rate' % U, 'C17', s, z3.Implies(z3.Or(force, rate >= 1), z3.BoolVal(d is None)), oc))
